@@ -1,6 +1,7 @@
 SPECIFICATION Spec
 CONSTANTS
  MaxImports = 1
- UseLayouts = {"plain", "tight", "trail", "oneline"}
- NExporters = {1, 2}
+ UseLayouts = {"plain", "tight", "trail", "oneline", "stray"}
+  Layouts3 = {"plain", "tight", "trail"}
+  NExporters = {1, 2}
 INVARIANTS ReadsBack
